@@ -401,3 +401,36 @@ Definition obs_of (cf : config) (s : state) : observation :=
      o_after_end := negb (env_active (env s));
      o_leak := negb (go_exited s);
      o_hang := negb (caller_finished cf s) |}.
+
+(** * The caller's context ends at an arbitrary point (correspondence part "upx")
+
+    When the context is cancelled before Create, between two writes, after the server
+    has answered but before Close, or while Close waits, the fault script no longer
+    determines what [Do] returns (the transport may report the cancellation or the
+    answer).  What the theorems fix regardless (C18_close_after_answer_partial,
+    C18_close_outcome_partial, C18_closed_implies_exited_partial): Close returns only
+    after [Do] has returned, and returns exactly what [Do] returned.  The harness
+    records what the HTTPClient's Do returned (mapped as internal.Client.Do maps it) and
+    whether it had returned when Close did. *)
+Record xobs := {
+  x_close : option result;      (* what Close returned *)
+  x_do : option result;         (* what Do returned (None: it has not returned within the patience) *)
+  x_do_first : bool;            (* Do had returned when Close returned *)
+  x_leak : bool;
+  x_hang : bool }.
+
+Definition close_is_do (o : xobs) : bool :=
+  match x_close o with
+  | Some r => x_do_first o && opt_result_eqb (x_do o) (Some r)
+  | None => false
+  end.
+
+Definition xspec_ok (o : xobs) : bool := negb (x_hang o) && negb (x_leak o) && close_is_do o.
+
+(** the observation a state of the transition system corresponds to *)
+Definition xobs_of (cf : config) (s : state) : xobs :=
+  {| x_close := close_result s;
+     x_do := match go s with GDo => None | _ => Some (result_of (env s)) end;
+     x_do_first := match go s with GDo => false | _ => true end;
+     x_leak := negb (go_exited s);
+     x_hang := negb (caller_finished cf s) |}.
